@@ -178,6 +178,28 @@ func NodePath(n Node) string {
 // similar to an XPath but currently has no wildcarding.  For example:
 // "/if:interfaces/if:interface" and "../config".
 func FindNode(n Node, path string) (Node, error) {
+	return findNode(n, path, usesSeen{})
+}
+
+// usesKey identifies one expansion of a uses statement by ChildNode: the
+// uses node and the name that is being looked for through it.
+type usesKey struct {
+	uses Node
+	name string
+}
+
+// usesSeen records the expansions of uses statements made during a single
+// call of ChildNode or FindNode.  An entry is nil while its expansion is in
+// progress; reaching it again means the groupings refer back to themselves
+// (or the grouping is missing and the lookup of its name has come back to
+// the uses statement itself), and such an expansion contributes nothing
+// rather than recursing without bound.  A finished entry holds the result
+// of the expansion, so no expansion is made twice in one search.
+type usesSeen map[usesKey]Node
+
+// findNode is FindNode with the record of the uses statements expanded so
+// far by the enclosing search.
+func findNode(n Node, path string, seen usesSeen) (Node, error) {
 	if path == "" {
 		return n, nil
 	}
@@ -260,7 +282,7 @@ func FindNode(n Node, path string) (Node, error) {
 		// For now just strip off any prefix
 		// TODO(borman): fix this
 		_, spart := getPrefix(part)
-		n = ChildNode(n, spart)
+		n = childNode(n, spart, seen)
 		if n == nil {
 			return nil, fmt.Errorf("%s: no such element", part)
 		}
@@ -273,6 +295,12 @@ func FindNode(n Node, path string) (Node, error) {
 // n as well as every node in all slices of Node pointers.  Names must
 // be non-ambiguous, otherwise ChildNode has a non-deterministic result.
 func ChildNode(n Node, name string) Node {
+	return childNode(n, name, usesSeen{})
+}
+
+// childNode is ChildNode with the record of the uses statements expanded so
+// far by the enclosing search.
+func childNode(n Node, name string, seen usesSeen) Node {
 	v := reflect.ValueOf(n).Elem()
 	t := v.Type()
 	nf := t.NumField()
@@ -304,15 +332,23 @@ Loop:
 		}
 		if parts[0] == "uses" {
 			check = func(n Node) Node {
+				key := usesKey{n, name}
+				if r, ok := seen[key]; ok {
+					// Already expanded, or being expanded
+					// right now (r is nil).
+					return r
+				}
+				seen[key] = nil
+
 				uname := n.NName()
 				// unrooted uses are rooted at root
 				if !strings.HasPrefix(uname, "/") {
 					uname = "/" + uname
 				}
-				if n, _ = FindNode(n, uname); n != nil {
-					return ChildNode(n, name)
+				if n, _ = findNode(n, uname, seen); n != nil {
+					seen[key] = childNode(n, name, seen)
 				}
-				return nil
+				return seen[key]
 			}
 		}
 
